@@ -225,6 +225,21 @@ def unary_on_abstract(ex, op, v, node):
     raise Unsupported(f'unary {type(op).__name__} on {v!r}')
 
 
+def scalar_view(ex, v):
+    """an abstract object whose class is known to be exactly str / int / bool (e.g. after `isinstance(v, str)`) seen as a symbolic scalar;
+    the same object always gives the same scalar.  None when v is not such an object."""
+    if isinstance(v, SymObj) and v.cls_set is not None and len(v.cls_set) == 1 and next(iter(v.cls_set)) in (str, int, bool):
+        k = next(iter(v.cls_set))
+        store = ex.__dict__.setdefault('_scalar_views', {})
+        sv = store.get(v.uid)
+        if sv is None:
+            name = f'{v.label}!{k.__name__}'
+            sv = {str: lambda: SymVal('str', z3.String(name)), int: lambda: SymVal('int', z3.Int(name)), bool: lambda: SymVal('bool', z3.Bool(name))}[k]()
+            store[v.uid] = sv
+        return sv
+    return None
+
+
 def compare(ex, op, a, b, node):
     if isinstance(op, (ast.Is, ast.IsNot)):
         # an opaque fact that stands for "Match object or None" (regex match atoms): `m is None` <=> not fact
@@ -238,6 +253,11 @@ def compare(ex, op, a, b, node):
         if isinstance(op, ast.In):
             return r
         return (not r) if isinstance(r, bool) else SymVal('bool', z3.Not(r.t))
+    _sa, _sb = scalar_view(ex, a), scalar_view(ex, b)
+    if _sa is not None:
+        a = _sa
+    if _sb is not None:
+        b = _sb
     if isinstance(a, SymVal) or isinstance(b, SymVal):
         za, sa = to_z3(a)
         zb, sb = to_z3(b)
@@ -617,6 +637,9 @@ def call_method(ex, recv, tag, args, kwargs, node):
     if kind == 'object':
         if name == '__init__':
             return None
+        _sv = scalar_view(ex, recv)
+        if _sv is not None and not name.startswith('__'):
+            return symval_method(ex, _sv, name, args, kwargs, node)
         raise Unsupported(f'object.{name}')
     raise Unsupported(f'method tag {tag}')
 
@@ -1037,6 +1060,18 @@ def call_external(ex, f, args, kwargs, node):
         return isinstance(args[0], (Closure, BoundMethod)) or callable(args[0])
     if f in (min, max, sum, abs) and not deep_abstract(args):
         return f(*args, **kwargs)
+    if f in (min, max) and len(args) >= 2 and not kwargs and all(
+            (isinstance(a_, SymVal) and a_.sort == 'int') or (isinstance(a_, int) and not isinstance(a_, bool)) for a_ in args):
+        # min / max of integers, some of them symbolic: an If-chain (ties give the first argument, as in CPython - irrelevant for ints)
+        def _t(a_):
+            return a_.t if isinstance(a_, SymVal) else z3.IntVal(a_)
+        acc = _t(args[0])
+        for a_ in args[1:]:
+            t_ = _t(a_)
+            acc = z3.If(t_ < acc, t_, acc) if f is min else z3.If(t_ > acc, t_, acc)
+        return SymVal('int', z3.simplify(acc))
+    if f is abs and len(args) == 1 and isinstance(args[0], SymVal) and args[0].sort == 'int':
+        return SymVal('int', z3.If(args[0].t < 0, -args[0].t, args[0].t))
     if f is issubclass:
         return issubclass(*args)
     if f is _copy.copy:
